@@ -1,5 +1,7 @@
 //! C07 — wire encodings are canonical, round-trip, and report their exact length.
 
+use crate::c07gram::*;
+pub use crate::c07gram::{build, spec_strategy, Expect};
 use crate::codec::*;
 use crate::gen::*;
 use crate::harness::*;
@@ -12,16 +14,6 @@ use serde::{Deserialize, Serialize};
 
 pub struct C07;
 
-#[derive(Clone, Copy, Debug, Serialize, Deserialize, PartialEq, Eq)]
-pub enum Expect {
-    /// the grammar built a canonical encoding: must be accepted and re-encode to itself
-    Accept,
-    /// the grammar knows the string is non-canonical / malformed: must be rejected
-    Reject,
-    /// only the implication "accepted ⇒ re-encodes to the same bytes" is checked
-    Unknown,
-}
-
 #[derive(Clone, Debug, Serialize, Deserialize)]
 pub enum Case {
     Str { spec: Spec, bytes: Hex, expect: Expect, why: String },
@@ -29,499 +21,6 @@ pub enum Case {
     HonestP3(crate::c01::Case),
     HonestPoplar(crate::c03::Case),
     HonestPrio2 { len: usize, seed: u64 },
-}
-
-// ------------------------------------------------------------------------------------------------
-// Grammar-based generation of near-valid strings
-
-pub struct Built {
-    pub bytes: Vec<u8>,
-    pub expect: Expect,
-    pub why: String,
-}
-
-struct Rnd {
-    seed: u64,
-    ctr: u64,
-}
-impl Rnd {
-    fn new(seed: u64) -> Self {
-        Rnd { seed, ctr: 0 }
-    }
-    fn u64(&mut self) -> u64 {
-        self.ctr += 1;
-        u64::from_le_bytes(expand_arr::<8>(self.seed, self.ctr))
-    }
-    fn below(&mut self, n: usize) -> usize {
-        if n == 0 {
-            0
-        } else {
-            (self.u64() % n as u64) as usize
-        }
-    }
-    fn bytes(&mut self, n: usize) -> Vec<u8> {
-        self.ctr += 1;
-        expand(self.seed, self.ctr ^ 0x5555_0000, n)
-    }
-    fn chance(&mut self, num: u64, den: u64) -> bool {
-        self.u64() % den < num
-    }
-}
-
-fn elem_class(f: FieldId, class: usize, r: &mut Rnd) -> (Vec<u8>, bool) {
-    // returns (bytes, canonical)
-    let p = f.modulus();
-    let sz = f.size();
-    let full = (BigUint::one() << (8 * sz)) - BigUint::one();
-    let (v, canon): (BigUint, bool) = match class {
-        0 => (BigUint::zero(), true),
-        1 => (BigUint::one(), true),
-        2 => (&p - 1u32, true),
-        3 => (p.clone(), false),
-        4 => (&p + 1u32, false),
-        5 => (full, false),
-        6 => {
-            // top bit set on an otherwise small value (Field255 masks only when *sampling*)
-            (BigUint::one() << (8 * sz - 1), f != FieldId::F255 && (BigUint::one() << (8 * sz - 1)) < p)
-        }
-        _ => (BigUint::from_bytes_le(&r.bytes(sz + 8)) % &p, true),
-    };
-    let canon = if class == 6 { v < p } else { canon };
-    (elem_bytes(f, &v), canon)
-}
-
-/// Build a string from a fixed layout. `bad` = probability (in 1/16) that a defect is injected.
-pub fn build_from_layout(pieces: &[Piece], seed: u64, bad16: u64) -> Built {
-    let mut r = Rnd::new(seed);
-    let mut out = vec![];
-    let mut expect = Expect::Accept;
-    let mut why = String::from("canonical");
-    let inject = r.chance(bad16, 16);
-    // choose which kind of defect
-    let total_elems: usize = pieces.iter().map(|p| if let Piece::Elems(_, n) = p { *n } else { 0 }).sum();
-    let has_bits = pieces.iter().any(|p| matches!(p, Piece::PackedBits(b) if b % 8 != 0));
-    let has_tag = pieces.iter().any(|p| matches!(p, Piece::Tag(_)));
-    let mut kinds = vec!["truncate", "extend"];
-    if total_elems > 0 {
-        kinds.push("elem");
-        kinds.push("elem");
-    }
-    if has_bits {
-        kinds.push("padding");
-    }
-    if has_tag {
-        kinds.push("tag");
-    }
-    let defect = if inject { kinds[r.below(kinds.len())] } else { "" };
-    let bad_elem_index = if defect == "elem" { r.below(total_elems) } else { usize::MAX };
-    let mut elem_idx = 0usize;
-    for p in pieces {
-        match p {
-            Piece::Elems(f, n) => {
-                // a handful of edge positions, the rest random canonical
-                for _ in 0..*n {
-                    let (b, canon) = if elem_idx == bad_elem_index {
-                        let cls = [3usize, 4, 5, 3][r.below(4)];
-                        let (b, c) = elem_class(*f, cls, &mut r);
-                        (b, c)
-                    } else if r.chance(1, 8) {
-                        elem_class(*f, r.below(3), &mut r)
-                    } else {
-                        elem_class(*f, 7, &mut r)
-                    };
-                    if !canon {
-                        expect = Expect::Reject;
-                        why = format!("element {elem_idx} is not below the modulus");
-                    }
-                    out.extend_from_slice(&b);
-                    elem_idx += 1;
-                }
-            }
-            Piece::Opaque(n) => out.extend_from_slice(&r.bytes(*n)),
-            Piece::Tag(valid) => {
-                if defect == "tag" {
-                    let mut t = (r.u64() & 0xff) as u8;
-                    while valid.contains(&t) {
-                        t = t.wrapping_add(1);
-                    }
-                    out.push(t);
-                    expect = Expect::Reject;
-                    why = format!("unknown tag {t}");
-                } else {
-                    out.push(valid[r.below(valid.len())]);
-                }
-            }
-            Piece::PackedBits(bits) => {
-                let nbytes = bits.div_ceil(8);
-                let mut b = r.bytes(nbytes);
-                if bits % 8 != 0 {
-                    let keep = (1u16 << (bits % 8)) - 1;
-                    b[nbytes - 1] &= keep as u8;
-                    if defect == "padding" {
-                        let pos = bits % 8 + r.below(8 - bits % 8);
-                        b[nbytes - 1] |= 1 << pos;
-                        expect = Expect::Reject;
-                        why = format!("non-zero padding bit {pos} in the packed control bits");
-                    }
-                }
-                out.extend_from_slice(&b);
-            }
-        }
-    }
-    if defect == "truncate" && !out.is_empty() {
-        let k = 1 + r.below(out.len().min(40));
-        out.truncate(out.len() - k);
-        expect = Expect::Reject;
-        why = format!("truncated by {k} bytes");
-    } else if defect == "truncate" || defect == "extend" {
-        let k = 1 + r.below(3);
-        out.extend_from_slice(&r.bytes(k));
-        expect = Expect::Reject;
-        why = format!("{k} trailing bytes");
-    }
-    Built { bytes: out, expect, why }
-}
-
-fn bits_to_prefix_bytes(v: u128, len: usize) -> Vec<u8> {
-    // MSB-first packing of the `len` low bits of v (bit len-1 first)
-    let mut out = vec![0u8; len.div_ceil(8)];
-    for i in 0..len {
-        let shift = len - 1 - i;
-        let bit = if shift < 128 { (v >> shift) & 1 } else { 0 };
-        if bit == 1 {
-            out[i / 8] |= 0x80 >> (i % 8);
-        }
-    }
-    out
-}
-
-pub fn build_agg_param(seed: u64, bad16: u64) -> Built {
-    let mut r = Rnd::new(seed);
-    let level: usize = match r.below(8) {
-        0 => 0,
-        1 => 7,
-        2 => 8,
-        3 => 15,
-        4 => r.below(300),
-        _ => r.below(24),
-    };
-    let len = level + 1;
-    let cap: u128 = if len >= 20 { 1 << 20 } else { 1u128 << len };
-    let n = 1 + r.below((cap.min(12)) as usize);
-    let mut vals: Vec<u128> = vec![];
-    while vals.len() < n {
-        let v = (r.u64() as u128) % cap;
-        // spread over the high bits for long prefixes
-        let v = if len > 20 { v << (len.min(100) - 20) } else { v };
-        if !vals.contains(&v) {
-            vals.push(v);
-        }
-    }
-    vals.sort();
-    let mut expect = Expect::Accept;
-    let mut why = String::from("canonical");
-    let mut declared = n as u32;
-    let inject = r.chance(bad16, 16);
-    let mut trailing_bit: Option<usize> = None;
-    let mut extra: Vec<u8> = vec![];
-    let mut truncate = 0usize;
-    if inject {
-        match r.below(8) {
-            0 if n >= 2 => {
-                vals.swap(0, n - 1);
-                expect = Expect::Reject;
-                why = "prefixes not in lexicographic order".into();
-            }
-            1 => {
-                let d = vals[r.below(n)];
-                vals.push(d);
-                vals.sort();
-                declared += 1;
-                expect = Expect::Reject;
-                why = "duplicate prefix".into();
-            }
-            2 if len % 8 != 0 => {
-                trailing_bit = Some(r.below(n));
-                expect = Expect::Reject;
-                why = "non-zero trailing bits in a prefix".into();
-            }
-            3 => {
-                declared += 1;
-                expect = Expect::Reject;
-                why = "count larger than the prefixes present".into();
-            }
-            4 => {
-                declared -= 1;
-                expect = Expect::Reject;
-                why = if declared == 0 { "zero prefixes with bytes left over".into() } else { "count smaller than the prefixes present (trailing bytes)".into() };
-            }
-            5 => {
-                let k = 1 + r.below(2);
-                extra = r.bytes(k);
-                expect = Expect::Reject;
-                why = "trailing bytes".into();
-            }
-            6 => {
-                truncate = 1 + r.below(3);
-                expect = Expect::Reject;
-                why = "truncated".into();
-            }
-            _ => {
-                vals.clear();
-                declared = 0;
-                expect = Expect::Reject;
-                why = "empty prefix list".into();
-            }
-        }
-    }
-    let mut out = vec![];
-    out.extend_from_slice(&(level as u16).to_be_bytes());
-    out.extend_from_slice(&declared.to_be_bytes());
-    for (i, v) in vals.iter().enumerate() {
-        let mut b = bits_to_prefix_bytes(*v, len);
-        if trailing_bit == Some(i) {
-            let unused = 8 - len % 8;
-            let pos = r.below(unused);
-            *b.last_mut().unwrap() |= 1 << pos;
-        }
-        out.extend_from_slice(&b);
-    }
-    out.extend_from_slice(&extra);
-    let nl = out.len().saturating_sub(truncate);
-    out.truncate(nl);
-    Built { bytes: out, expect, why }
-}
-
-pub fn build_pop_state(seed: u64, bad16: u64) -> (Built, Option<PopStateKind>) {
-    let mut r = Rnd::new(seed);
-    let leaf = r.chance(1, 2);
-    let round2 = r.chance(1, 2);
-    let f = if leaf { FieldId::F255 } else { FieldId::F64 };
-    let n = r.below(6);
-    let mut expect = Expect::Accept;
-    let mut why = String::from("canonical");
-    let inject = r.chance(bad16, 16);
-    let defect = if inject { r.below(6) } else { 99 };
-    let mut out = vec![];
-    let mut kind = Some(match (leaf, round2) {
-        (false, false) => PopStateKind::InnerR1,
-        (false, true) => PopStateKind::InnerR2,
-        (true, false) => PopStateKind::LeafR1,
-        (true, true) => PopStateKind::LeafR2,
-    });
-    let reject = |w: &str, expect: &mut Expect, why: &mut String| {
-        *expect = Expect::Reject;
-        *why = w.into();
-    };
-    if defect == 0 {
-        out.push(2 + (r.u64() % 254) as u8);
-        reject("unknown state variant tag", &mut expect, &mut why);
-        kind = None;
-    } else {
-        out.push(leaf as u8);
-    }
-    if defect == 1 {
-        out.push(2 + (r.u64() % 254) as u8);
-        reject("unknown sketch state tag", &mut expect, &mut why);
-        kind = None;
-    } else {
-        out.push(round2 as u8);
-    }
-    if !round2 {
-        for _ in 0..2 {
-            let (b, _) = elem_class(f, if r.chance(1, 4) { r.below(3) } else { 7 }, &mut r);
-            out.extend_from_slice(&b);
-        }
-    }
-    let declared = match defect {
-        2 => {
-            reject("output share count larger than the elements present", &mut expect, &mut why);
-            n as u32 + 1
-        }
-        3 if n > 0 => {
-            reject("output share count smaller than the elements present", &mut expect, &mut why);
-            n as u32 - 1
-        }
-        _ => n as u32,
-    };
-    out.extend_from_slice(&declared.to_be_bytes());
-    let bad_elem = if defect == 4 && n > 0 { r.below(n) } else { usize::MAX };
-    for i in 0..n {
-        let (b, canon) = if i == bad_elem { elem_class(f, [3, 4, 5][r.below(3)], &mut r) } else { elem_class(f, 7, &mut r) };
-        if !canon {
-            reject("output share element not below the modulus", &mut expect, &mut why);
-        }
-        out.extend_from_slice(&b);
-    }
-    if defect == 5 {
-        let k = 1 + r.below(2);
-        out.extend_from_slice(&r.bytes(k));
-        reject("trailing bytes", &mut expect, &mut why);
-    }
-    if expect == Expect::Reject {
-        kind = kind.filter(|_| false);
-    }
-    (Built { bytes: out, expect, why }, kind)
-}
-
-pub fn build_pop_continuation(seed: u64, bad16: u64) -> Built {
-    // state (canonical) followed by the message its sketch state calls for
-    let (st, kind) = build_pop_state(seed, 0);
-    let mut r = Rnd::new(seed ^ 0xabcdef);
-    let mut out = st.bytes;
-    let mut expect = Expect::Accept;
-    let mut why = String::from("canonical");
-    let msg_layout = layout(&Spec::PopMessage(kind.expect("canonical state has a kind"))).unwrap();
-    let m = build_from_layout(&msg_layout, r.u64(), bad16);
-    out.extend_from_slice(&m.bytes);
-    if m.expect != Expect::Accept {
-        expect = Expect::Reject;
-        why = format!("verifier message part: {}", m.why);
-        // a truncated/extended message part of an empty message layout is trailing bytes: still reject
-    }
-    Built { bytes: out, expect, why }
-}
-
-pub fn build_pingpong(seed: u64, bad16: u64) -> Built {
-    let mut r = Rnd::new(seed);
-    let tag = r.below(3) as u8;
-    let nblobs = if tag == 1 { 2 } else { 1 };
-    let mut expect = Expect::Accept;
-    let mut why = String::from("canonical");
-    let inject = r.chance(bad16, 16);
-    let defect = if inject { r.below(5) } else { 99 };
-    let mut out = vec![];
-    if defect == 0 {
-        out.push(3 + (r.u64() % 253) as u8);
-        expect = Expect::Reject;
-        why = "unknown message type".into();
-    } else {
-        out.push(tag);
-    }
-    for i in 0..nblobs {
-        let n = match r.below(4) {
-            0 => 0,
-            1 => 1,
-            _ => r.below(70),
-        };
-        let declared: u32 = match defect {
-            1 if i == nblobs - 1 => {
-                expect = Expect::Reject;
-                why = "length prefix exceeds the remaining bytes".into();
-                n as u32 + 1 + r.below(3) as u32
-            }
-            2 if i == nblobs - 1 && n > 0 => {
-                expect = Expect::Reject;
-                why = "length prefix shorter than the payload (trailing bytes)".into();
-                n as u32 - 1
-            }
-            3 if i == 0 => {
-                expect = Expect::Reject;
-                why = "extreme length prefix".into();
-                [0xFFFF_FFFFu32, 0x8000_0000, 0x7FFF_FFFF, 0x0100_0000][r.below(4)]
-            }
-            _ => n as u32,
-        };
-        out.extend_from_slice(&declared.to_be_bytes());
-        out.extend_from_slice(&r.bytes(n));
-    }
-    if defect == 4 {
-        let k = 1 + r.below(2);
-        out.extend_from_slice(&r.bytes(k));
-        expect = Expect::Reject;
-        why = "trailing bytes".into();
-    }
-    Built { bytes: out, expect, why }
-}
-
-pub fn build(spec: &Spec, seed: u64, bad16: u64) -> Built {
-    match layout(spec) {
-        Some(l) => build_from_layout(&l, seed, bad16),
-        None => match spec {
-            Spec::PopAggParam => build_agg_param(seed, bad16),
-            Spec::PopState { .. } => build_pop_state(seed, bad16).0,
-            Spec::PopContinuation { .. } => build_pop_continuation(seed, bad16),
-            Spec::PingPongMessage => build_pingpong(seed, bad16),
-            _ => unreachable!(),
-        },
-    }
-}
-
-// ------------------------------------------------------------------------------------------------
-// Spec generation
-
-pub fn small_bits() -> BoxedStrategy<usize> {
-    prop_oneof![
-        4 => 1usize..=8,
-        3 => 9usize..=40,
-        1 => prop_oneof![Just(63usize), Just(64), Just(65), Just(128), Just(300)],
-    ]
-    .boxed()
-}
-
-pub fn spec_strategy() -> BoxedStrategy<Spec> {
-    let cfg = || cfg_strategy(Limits::small());
-    let scalars = prop_oneof![
-        Just(Spec::U8),
-        Just(Spec::U16),
-        Just(Spec::U32),
-        Just(Spec::U64),
-        Just(Spec::Unit),
-        Just(Spec::Seed16),
-        Just(Spec::Seed32),
-        Just(Spec::F32),
-        Just(Spec::F64),
-        Just(Spec::F128),
-        Just(Spec::F255),
-        Just(Spec::PopValue64),
-        Just(Spec::PopValue255),
-        Just(Spec::Prio2VerifierShare),
-    ];
-    let p3 = (cfg(), any::<u8>(), 0usize..8).prop_map(|(c, a, which)| {
-        let agg = (a as usize) % c.n_agg as usize;
-        match which {
-            0 => Spec::P3Public(c),
-            1 => Spec::P3Input(c, agg),
-            2 => Spec::P3VerifierShare(c, agg),
-            3 => Spec::P3VerifierMessage(c, agg),
-            4 => Spec::P3State(c, agg),
-            5 => Spec::P3Output(c),
-            6 => Spec::P3Agg(c),
-            _ => Spec::P3Continuation(c, agg),
-        }
-    });
-    let kinds = prop_oneof![Just(PopStateKind::InnerR1), Just(PopStateKind::InnerR2), Just(PopStateKind::LeafR1), Just(PopStateKind::LeafR2)];
-    let idpfk = prop_oneof![Just(IdpfKind::Poplar), Just(IdpfKind::F64F255), Just(IdpfKind::F128F128), Just(IdpfKind::F32F64)];
-    let pop = prop_oneof![
-        3 => (idpfk, small_bits()).prop_map(|(kind, bits)| Spec::IdpfPublic { kind, bits }),
-        3 => (small_bits(), any::<bool>(), 0usize..2).prop_map(|(bits, aes, agg)| Spec::PopInput { bits, aes, agg }),
-        3 => (small_bits(), 0usize..2).prop_map(|(bits, agg)| Spec::PopState { bits, agg }),
-        2 => kinds.clone().prop_map(Spec::PopMessage),
-        2 => kinds.prop_map(Spec::PopFieldVecByState),
-        3 => (small_bits(), any::<u16>(), 1usize..=6, any::<bool>()).prop_map(|(bits, l, n, leaf)| {
-            let level = if leaf { bits - 1 } else { idx16(l, bits) };
-            let cap = if level + 1 >= 3 { 6 } else { 1usize << (level + 1) };
-            Spec::PopFieldVecByParam { bits, level, n: n.min(cap) }
-        }),
-        4 => Just(Spec::PopAggParam),
-        2 => (small_bits(), 0usize..2).prop_map(|(bits, agg)| Spec::PopContinuation { bits, agg }),
-    ];
-    let prio2len = prop_oneof![1usize..=9, Just(14usize), Just(15), Just(16), Just(30), Just(31), Just(32), Just(63), Just(64)];
-    let prio2 = (prio2len, 0usize..2, 0usize..5).prop_map(|(len, agg, which)| match which {
-        0 => Spec::Prio2Input { len, agg },
-        1 => Spec::Prio2State { len, agg },
-        2 => Spec::Prio2Output { len },
-        3 => Spec::Prio2Agg { len },
-        _ => Spec::Prio2Continuation { len, agg },
-    });
-    prop_oneof![
-        2 => scalars,
-        6 => p3,
-        6 => pop,
-        2 => prio2,
-        2 => Just(Spec::PingPongMessage),
-    ]
-    .boxed()
 }
 
 pub fn str_case_strategy(bad16: u64) -> BoxedStrategy<Case> {
